@@ -445,7 +445,7 @@ def expected_aux(ic, key):
 
 @st.composite
 def analytic_case(draw, names=None, nmax=12, need_edge=True, modes=('rho', 'sets'), labels=('int', 'perm', 'str', 'tuple'),
-                  rates=None, family=None, depletion_cap=3.0):
+                  rates=None, family=None, depletion_cap=3.0, selfloops=False):
     name = draw(st.sampled_from(sorted(names or ENTRIES)))
     e = ENTRIES[name]
     n_hi = min(nmax, e.nmax)
@@ -468,6 +468,12 @@ def analytic_case(draw, names=None, nmax=12, need_edge=True, modes=('rho', 'sets
             'tmin': tmin, 'tmax': tmin + draw(st.sampled_from([1.0, 2.5, 5.0])), 'tcount': draw(st.sampled_from([2, 3, 6, 11])),
             'dtmin': draw(st.sampled_from([0, 0, 1, -2])), 'I0': [], 'R0': [], 'float_Ks': draw(st.booleans())}
     case['dtmax'] = case['dtmin'] + draw(st.integers(1, 6))
+    if selfloops and draw(st.integers(0, 3)) == 0:
+        # only for checks that compare two runs of the same entry point (the hand counters of this module ignore loops)
+        loops = [u for u in gc['nodes'] if draw(st.integers(0, 2)) == 0]
+        gc['edges'] = gc['edges'] + [[u, u] for u in loops]
+        if loops:
+            gc['selfloops'] = True
     if depletion_cap:
         # closures divide by [S], [SS], sum_k k[S_k]: keep every susceptible class above e^-cap of its initial size for the
         # whole run (hazard of a degree-k node is at most tau*k), otherwise late-time 0/0 noise is not a code property
